@@ -47,7 +47,7 @@ def _base_event():
     return {"op": "none", "out": "ok", "exc": "", "nopt": 0, "argsame": True,
             "p": "none", "bad": False, "fresh": "none", "key": "none",
             "val": "none", "keys": [], "haspre": False, "ret": "none",
-            "expect": "none", "retok": True, "rater": "none",
+            "expect": "none", "expect2": "none", "retok": True, "rater": "none",
             "streq": False, "badval": False, "via": "fresh", "kwvals": {},
             "orphan": False, "rxhi": "none", "binfail": False, "details": False,
             "contnan": False, "tree": False, "pseudo": False,
